@@ -35,6 +35,9 @@ RULE = ("TLC enumerates the perturbation graph of EqContract!ClassTable: for eac
         "None entries, id sets re-inserted) are ordinary groups; the mutators update_initial_state (default arguments / "
         "everything given, max_history_length left out, 1, 2) and update_prediction advance every node with parallel "
         "history lists and are compared with a fresh obstacle built from the archived raw values. "
+        "Observed dimension: on every node the read-only public queries of the class (EqContract!Queries; str, repr, "
+        "hash everywhere; rendering on the Scenario seeds) are run on x only / on x and an independently built twin, "
+        "then x is compared with the twin and with deep copies taken before and after. "
         "distinct_nontrivial = distinct (class, x valuation, y valuation, kind) with x # y.")
 ASSUMPTIONS = ["'constructor-visible attribute' = parameter of the public constructor; parameters that are only valid "
                "together form one group (joint domain); content of LaneletNetwork / Scenario is added through the "
@@ -761,6 +764,103 @@ def fresh_from_current(cls, x):
     return c.build(kw)
 
 
+def _render(sc):
+    import matplotlib
+    matplotlib.use("Agg")
+    import matplotlib.pyplot as plt
+    from commonroad.visualization.mp_renderer import MPRenderer
+    fig = plt.figure(figsize=(2, 2))
+    try:
+        rnd = MPRenderer(ax=fig.gca())
+        sc.draw(rnd)
+        rnd.render()
+    finally:
+        plt.close(fig)
+
+
+def _probe_state():
+    import numpy as np
+    from commonroad.scenario.state import KSState
+    return KSState(time_step=12, position=np.array([1.0, 2.0]), orientation=0.5, velocity=3.0, steering_angle=0.0)
+
+
+def _probe_trajectory():
+    from commonroad.scenario.trajectory import Trajectory
+    return Trajectory(12, [_probe_state()])
+
+
+def _P():
+    import numpy as np
+    return np.array([1.0, 0.5])
+
+
+def _each(items, f):
+    for it in items:
+        f(it)
+
+
+# EqContract!Queries: the read-only public queries of the observed dimension (names as in the TLA+ table)
+QUERY = {
+    "str": lambda o: str(o), "repr": lambda o: repr(o), "hash": lambda o: hash(o),
+    "shapely_object": lambda o: o.shapely_object, "contains_point": lambda o: o.contains_point(_P()),
+    "vertices": lambda o: o.vertices, "center": lambda o: o.center,
+    "get_state_at_time_step": lambda o: [o.get_state_at_time_step(t) for t in (0, 1, 7)],
+    "cycle_init_timesteps": lambda o: o.cycle_init_timesteps,
+    "distance": lambda o: o.distance, "inner_distance": lambda o: o.inner_distance, "polygon": lambda o: o.polygon,
+    "interpolate_position": lambda o: o.interpolate_position(0.5),
+    "orientation_by_position": lambda o: o.orientation_by_position(_P()),
+    "find_lanelet_by_position": lambda o: o.find_lanelet_by_position([_P()]),
+    "lanelet_polygons": lambda o: o.lanelet_polygons,
+    "map_inc_lanelets_to_intersections": lambda o: o.map_inc_lanelets_to_intersections,
+    "lanelets_in_proximity": lambda o: o.lanelets_in_proximity(_P(), 5.0),
+    "light_states": lambda o: _each(_lights(o), lambda tl: tl.get_state_at_time_step(3)),
+    "occupancy_at_time": lambda o: [o.occupancy_at_time(t) for t in (0, 1, 2)],
+    "state_at_time": lambda o: [o.state_at_time(t) for t in (0, 1, 2)],
+    "state_at_time_step": lambda o: [o.state_at_time_step(t) for t in (1, 2)],
+    "final_state": lambda o: o.final_state,
+    "occupancy_set": lambda o: o.occupancy_set,
+    "occupancy_at_time_step": lambda o: [o.occupancy_at_time_step(t) for t in (1, 2)],
+    "is_reached": lambda o: o.is_reached(_probe_state()),
+    "goal_reached": lambda o: o.goal_reached(_probe_trajectory()),
+    "occupancies_at_time_step": lambda o: [o.occupancies_at_time_step(t) for t in (0, 1)],
+    "obstacle_states_at_time_step": lambda o: o.obstacle_states_at_time_step(1),
+    "render": _render,
+}
+
+
+def _observe(o, names):
+    """run the queries; what they return or raise is not the business of C12"""
+    ran = []
+    for q in names:
+        try:
+            QUERY[q](o)
+        except Exception:
+            pass
+        ran.append(q)
+    return ran
+
+
+def _execute_observed(case):
+    cls, xv, who, names = case["cls"], case["x"], case["mk"], sorted(case["queries"])
+    x, y = build(cls, xv), build(cls, xv)
+    ctl = _b(lambda: x == y)
+    c0 = copy.deepcopy(x)
+    ran = _observe(x, names)
+    if who == "both":
+        _observe(y, names)
+    c1 = copy.deepcopy(x)
+    hx, vx = _h(x)
+    hy, vy = _h(y)
+    same = lambda o: int(hx == "ok" and _h(o) == ("ok", vx))   # noqa: E731
+    return {"ev": [{"op": "obs", "cls": cls, "x": xv, "kind": "observe", "who": who, "queries": ran, "ctl": ctl,
+                    "eq_xy": _b(lambda: x == y), "eq_yx": _b(lambda: y == x), "ne_xy": _b(lambda: x != y),
+                    "eq_xc0": _b(lambda: x == c0), "eq_c0x": _b(lambda: c0 == x),
+                    "eq_xc1": _b(lambda: x == c1), "eq_c1x": _b(lambda: c1 == x),
+                    "hash_x": hx, "hash_y": hy, "heq_y": int(hx == "ok" and hy == "ok" and vx == vy),
+                    "heq_c0": same(c0), "heq_c1": same(c1),
+                    "sig": "%s.%s" % (cls, case["grp"])}]}
+
+
 def _execute_raw(case):
     cls, xv, name = case["cls"], case["x"], case["grp"]
     x = build(cls, xv)
@@ -872,6 +972,9 @@ def model_check(ctx):
     # design in which only setters drop the cached comparison key (seeded change C12-2): TLC must find the
     # warm object that answers with the key of its old position
     ctx.mc_expect("MC_EqContract", "DEV_EqContract_1.cfg", "InvCurrent")
+    # design in which == compares the whole instance dictionary (seeded change C12-6): a queried object differs
+    # from its never-queried twin
+    ctx.mc_expect("MC_EqContract", "DEV_EqContract_2.cfg", "InvObserved")
 
 
 def cases(ctx):
@@ -885,6 +988,9 @@ def cases(ctx):
     motion, setters = spec_json(r["out"], "MOTION"), spec_json(r["out"], "SETTERS")
     check_mutators(motion, setters, ctx)
     raw = {(c, m[0]) for c, ms in spec_json(r["out"], "RAW").items() for m in ms}
+    named = {q for qs in spec_json(r["out"], "QUERIES").values() for q in qs}
+    if named != set(QUERY):
+        raise tlc.MachineryError("EqContract!Queries and crv/props/c12.py!QUERY disagree: %r" % sorted(named ^ set(QUERY)))
     if raw != set(RAW):
         raise tlc.MachineryError("EqContract!RawMut and crv/props/c12.py!RAW disagree: %r" % sorted(raw ^ set(RAW)))
     cs += _random_mutations(spec, motion, setters, ctx.rng, 10000 if ctx.thorough else 1000)
@@ -895,7 +1001,7 @@ def cases(ctx):
     seen = set()
     for c in cs:
         key = (c["cls"], tuple(sorted(c["y"].items())))
-        if c["kind"] == "mutate":
+        if c["kind"] in ("mutate", "observe"):
             c["node"] = 0
             continue
         c["node"] = 0 if key in seen else 1          # node tests once per distinct valuation
@@ -906,6 +1012,7 @@ def cases(ctx):
     ctx.extra["distinct_valuations"] = len(seen)
     ctx.extra["mutation_cases"] = {mk: sum(1 for c in cs if c["kind"] == "mutate" and c["mk"] == mk)
                                    for mk in ("set", "move", "flat", "adv", "upd", "raw")}
+    ctx.extra["observed_cases"] = sum(1 for c in cs if c["kind"] == "observe")
     ctx.extra["mutators"] = len({(c["cls"], c["grp"]) for c in cs if c["kind"] == "mutate"})
     return cs
 
@@ -976,7 +1083,7 @@ def _random_mutations(spec, motion, setters, rng, n):
 
 
 def nontrivial(case):
-    if case["kind"] == "mutate":
+    if case["kind"] in ("mutate", "observe"):
         return (case["cls"], tuple(sorted(case["x"].items())), tuple(sorted(case["y"].items())), case["grp"],
                 case["warm"])
     if case["x"] == case["y"]:
@@ -1044,6 +1151,8 @@ def _execute_mutation(case):
 def execute(case):
     use_repo()
     warnings.simplefilter("ignore")
+    if case["kind"] == "observe":
+        return _execute_observed(case)
     if case["kind"] == "mutate":
         return _execute_raw(case) if case["mk"] == "raw" else _execute_mutation(case)
     cls, xv, yv, kind = case["cls"], case["x"], case["y"], case["kind"]
@@ -1067,6 +1176,11 @@ def corrupt(trace, rng):
     """Flip one logged observation; the trace spec must reject exactly that event."""
     i = rng.randrange(len(trace["ev"]))
     e = trace["ev"][i]
+    if e["op"] == "obs":
+        if e["ctl"] != 1:
+            return None
+        e[rng.choice(["eq_xy", "eq_yx", "eq_xc0", "eq_c1x"])] = rng.choice([0, 2])   # unequal / raising after a query
+        return trace
     if e["op"] == "raw":
         e[rng.choice(["refl", "copy_xy", "copy_yx"])] = 0      # no longer equal to itself / its deep copy
         return trace
